@@ -53,6 +53,10 @@ def run(ctx):
     from plans import mirrored_wrapper_groups
     groups += mirrored_wrapper_groups(ctx, ['sw', 'proj'])
     run_plan(ctx, groups, budget=60)
+    # the composite operators on sympy-symbolic operands, graded mode on / off (their generation and the symbolic call path both
+    # go through the zero filter)
+    from symstage import run_symbolic
+    run_symbolic(ctx, ['sw', 'proj', 'normsq'], 'symbolic_composite_events')
     return ctx.finish(
         rule='case = (configuration, options {cse, symbol class}, operator in {sw, proj, normsq}, ordered key tuples) on formal '
              'indeterminates; d<=1 all ordered pairs, d=2 all canonical subset pairs + sampled orders (thorough: all), d=3..5 '
